@@ -1,10 +1,14 @@
 from .. import facts
 from ..common import Report, finish
-from ..rules import gate, flags, c15
+from .. import flow
+from ..common import load_table
+from ..rules import gate, flags, c15, c06, docpanic
 
 RULE = ("the `is_some` flag of every inversion (inv, inv_mod, inv_odd_mod, inv_mod2k, invert and their _vartime twins, on "
         "Uint, Int, BoxedUint, the three Montgomery forms and the inverter objects) depends, in the label-flow summary, on "
-        "every operand: the value and the modulus / inverter")
+        "every operand: the value and the modulus / inverter; c10.docpanic: a documented panic of an inversion / gcd routine "
+        "exists in release builds; c10.dbgwidth: in the boxed inversion / gcd routines and the boxed safegcd helpers, the size "
+        "of a heap-allocated operand is never related to another parameter by a debug assertion only")
 INV = {"inv", "inv_mod", "inv_odd_mod", "inv_mod2k"}
 
 
@@ -14,12 +18,24 @@ def run(tier, t0):
         f = facts.load(cfg)
         gate.run(f, rep, cfg, lambda b, fam: fam in INV, "c10.gate", "inversion_operations")
         flags.run(f, rep, cfg, lambda b: c15.family(b.get("name")) in INV | {"gcd"})
+        docpanic.run(f, rep, cfg, lambda b: c15.family(b.get("name")) in INV | {"gcd"}, "c10.docpanic",
+                     counter="documented_panics_inv_gcd")
+        eng = flow.Engine(f, flow.Policy())
+        eng.run_all(collect=False)
+        rev = {e["key"]: e["reason"] for e in load_table("c10.toml").get("reviewed_dbgwidth", [])}
+        c06.run_debug_width(f, rep, cfg, eng,
+                            select=lambda b: c15.family(b.get("name")) in INV | {"gcd"} or "safegcd::boxed" in b["id"],
+                            prefix="c10.dbgwidth", counter="boxed_inv_gcd_bodies", reviewed=rev, len_vs_any=True,
+                            effect="a value of another precision is cut down or zero-extended without reduction (or the "
+                                   "result is truncated to the value's precision): the routine returns some(x) with x not an "
+                                   "inverse, or none for an invertible value, where the debug profile panics")
     stale = {}
     for x in rep.stale:
         stale.setdefault(x["key"], set()).add(x["config"])
     rep.stale = sorted(k for k, v in stale.items() if len(v) == 2)
     rep.floor("inversion_operations", 36)
     rep.floor("validity_flag_calls", 4)
+    rep.floor("boxed_inv_gcd_bodies", 8)
     return finish(rep, tier, t0,
                   explanation="one structural necessary condition of C10: whether an inverse exists depends on both the value "
                               "and the modulus (for a fixed modulus some values are invertible and some are not, and vice "
